@@ -356,10 +356,17 @@ def boundary_rules(P, R, mt, cg):
                     order.append(("clear", c[1]))
                 elif isinstance(c[2], dict) and c[2].get("proj") and any(tg in engine_reach for tg in cg.resolve(c[2], f)) and qn not in clearing:
                     order.append(("engine", c[1]))
+                elif isinstance(c[2], dict) and c[2].get("proj") and any(tg in may_throw for tg in cg.resolve(c[2], f)):
+                    order.append(("fail", c[1], qn))
         first_engine = next((i for i, o in enumerate(order) if o[0] == "engine"), None)
         first_clear = next((i for i, o in enumerate(order) if o[0] == "clear"), None)
-        if first_clear is not None and (first_engine is None or first_clear < first_engine):
-            R.ok("C08.clear", nm, "reporters cleared (line %d) before the engine runs" % order[first_clear][1])
+        early = [o for o in order[:first_clear]] if first_clear is not None else []
+        early = [o for o in early if o[0] == "fail"]
+        if first_clear is not None and early:
+            R.violation("C08.clear", nm, "%s (line %d) may end the call with a STOP before the error/warning reporters are cleared (line %d): the failing call then "
+                        "reports the warnings and output of the previous call as its own" % (early[0][2], early[0][1], order[first_clear][1]), **where)
+        elif first_clear is not None and (first_engine is None or first_clear < first_engine):
+            R.ok("C08.clear", nm, "reporters cleared (line %d) before the engine runs and before any call that can raise a STOP" % order[first_clear][1])
         else:
             R.violation("C08.clear", nm, "error/warning reporters are not cleared before the engine runs: messages of an earlier call would be reported for this one", **where)
     # IPhreeqc::error_msg throws IPhreeqcStop when stop
